@@ -1,6 +1,7 @@
 package olvm
 
 import (
+	"bytes"
 	"encoding/json"
 	"fmt"
 	"math/big"
@@ -231,6 +232,13 @@ func (otx olvmTx) Validate(ctx *action.Context, signedTx action.SignedTx) (bool,
 	err := tx.Unmarshal(signedTx.Data)
 	if err != nil {
 		return false, err
+	}
+
+	// the Ethereum signature covers the decoded fields, not the bytes of the payload: accept only
+	// the encoding Marshal produces, so that the signed transaction has one spelling
+	canon, err := tx.Marshal()
+	if err != nil || !bytes.Equal(canon, signedTx.Data) {
+		return false, errors.New("payload is not in canonical encoding")
 	}
 
 	//validate basic signature
